@@ -27,33 +27,52 @@ class C04(SchedProp):
         'CylcModel.C04.other_ops_keep_limit',
         'CylcModel.C04.no_deadlock_base_le_limit',
         'CylcModel.C04.no_deadlock_base_released',
+        # (ii) component model Runahead: duration limits, future offsets, any pool history
+        'CylcModel.C04.direct_spec0_meaning',
+        'CylcModel.C04.direct_compute_forced',
+        'CylcModel.C04.direct_compute_sound_partial',
+        'CylcModel.C04.direct_compute_sound_guarded',
+        'CylcModel.C04.direct_compute_sound_counterexample',
+        'CylcModel.C04.direct_release_sound',
+        'CylcModel.C04.direct_no_deadlock',
     ]
     statement_note = (
-        'partial: proof over the frozen Sched model (v1), for all instance graphs satisfying two decidable hypotheses '
-        '(every recurrence a strictly ascending point list; no graph child / next parentless instance at an earlier '
-        'point = no future triggers; both checked by the driver on every extracted graph) and all op lists of main '
-        'loops, submit results and job messages. Proved: the specification limit limitAt (RunaheadSpec for count '
-        'limits Pn: (n+1)-th earliest point of the recurrences at or after the earliest pooled point, the latest if '
-        'fewer, capped at the stop point) characterised without any sorting function; the key lemma (the k smallest '
-        'of a union of ascending lists = the k smallest of the union of their first k); a forced compute_runahead '
-        'yields limitAt of the current pool in any state; in every reachable state the unforced compute_runahead '
-        '(recompute / cached sequence points / early return on unchanged base point / early return at the stop '
-        'point) yields the same; every released proxy of every reachable state lies within limitAt of the current '
-        'pool, and after a main loop within limitAt of the pool the loop started with; release_runahead_tasks flips '
-        'is_runahead only at or before runahead_limit_point; other ops neither release nor change the limit; '
-        'base point <= limit and after the release step of a main loop no proxy of the base cycle is held back '
-        '(no deadlock). NOT in Sched v1 and therefore not proved (nor generated): duration limits (PT6H ...), '
-        'future-trigger offsets (max_future_offset extension of the limit), manually triggered tasks (exemption), '
-        'the set_stop_point command (re-limiting), reload (forced recompute after a config change), restart loading, '
-        'Cylc-7 compatibility mode (failed tasks ignored for the base point). The global liveness reading of '
-        '"never prevents the workflow from finishing" is delivered as the per-loop statement that the earliest '
-        'cycle is always released (the run-to-completion argument on top of it belongs to C01/C03).')
+        'partial. (i) Scheduler level, over the frozen Sched model (v1), for all instance graphs satisfying two decidable '
+        'hypotheses (every recurrence a strictly ascending point list; no graph child / next parentless instance at an '
+        'earlier point = no future triggers; both checked by the driver on every extracted graph) and all op lists of main '
+        'loops, submit results and job messages: the specification limit limitAt (RunaheadSpec for count limits Pn: '
+        '(n+1)-th earliest point of the recurrences at or after the earliest pooled point, the latest if fewer, capped at '
+        'the stop point) characterised without any sorting function; the key lemma (the k smallest of a union of ascending '
+        'lists = the k smallest of the union of their first k); a forced compute_runahead yields limitAt of the current '
+        'pool in any state; in every reachable state the unforced compute_runahead (recompute / cached sequence points / '
+        'early return on unchanged base point / early return at the stop point) yields the same; every released proxy of '
+        'every reachable state lies within limitAt of the current pool, and after a main loop within limitAt of the pool '
+        'the loop started with; release_runahead_tasks flips is_runahead only at or before runahead_limit_point; other ops '
+        'neither release nor change the limit; base point <= limit and after the release step of a main loop no proxy of '
+        'the base cycle is held back (no deadlock). Sched v1 has only count limits Pn, no future-trigger offsets, no '
+        'commands: (ii) those parts are covered at component level by the Runahead model (compute_runahead, '
+        'set_max_future_offset, release decision; count and duration limits, largest future offset among pooled tasks, '
+        'stop point, cache, both early returns) for ALL histories of pool changes (the base point may move backward, as '
+        'after a manual trigger): forced computation = specification in any state; unforced computation = specification '
+        'after any history EXCEPT when the limit sits at the stop point and the base point moved backward '
+        '(direct_compute_sound_full is refuted on a reachable state = finding stale-limit-at-stop-point, reproduced on the '
+        'real scheduler; proved in full for the repaired early return of findings/C04-fix-1.diff); releases after '
+        'pool-change + offset update + computation lie within the specification limit (same exception); the base cycle is '
+        'always released (no exception). Not proved / not generated anywhere: the manual-trigger exemption itself '
+        '(is_manual_submit tasks are not runahead-limited), the set_stop_point command (re-limiting), reload, restart '
+        'loading, Cylc-7 compatibility mode. The global liveness reading of "never prevents the workflow from finishing" '
+        'is delivered as the per-loop statement that the earliest cycle is always released (the run-to-completion '
+        'argument on top of it belongs to C01/C03).')
     technique = ('inductive invariant over op lists of a Lean scheduler model (one lemma per primitive, lifted with run_inv) '
                  '+ list lemmas for the specification limit + trace correspondence and a trace judge on the real Scheduler')
-    trusted = ['the pool snapshots (cycle point, name, is_runahead of every proxy) taken after start-up and after every op']
+    trusted = ['the pool snapshots (cycle point, name, is_runahead of every proxy) taken after start-up and after every op',
+               'direct cases: the pool stub (fake task proxies with point / tdef.max_future_prereq_offset / is_runahead) on which the '
+               'real TaskPool.compute_runahead, set_max_future_offset and release_runahead_tasks run; the real sequence objects '
+               '(IntegerSequence / ISO8601Sequence get_first_point, get_next_point: C16/C17) enumerate the recurrence points handed '
+               'to the model; datetime points and intervals are converted to seconds']
     unmodelled = SchedProp.unmodelled + [
-        'runahead: duration limits, future-trigger offsets (max_future_offset), manual-trigger exemption, '
-        'set_stop_point re-limiting, reload, restart, Cylc-7 back-compat base point',
+        'runahead at scheduler level: duration limits and future-trigger offsets (covered at component level only); '
+        'nowhere: manual-trigger exemption, set_stop_point re-limiting, reload, restart, Cylc-7 back-compat base point',
     ]
     rule = ('generated integer-cycling workflows (2-6 tasks, 1-3 recurrences of different intervals P1/P2/+P1/P2/R1..., AND/OR '
             'triggers, inter-cycle offsets, optional and custom outputs, runahead P0-P3, final point up to 5 cycles after the '
@@ -62,9 +81,31 @@ class C04(SchedProp):
             'failures, duplicate/stale/out-of-order messages in the "any" kind); the judge evaluates every release between '
             'consecutive pool snapshots against limitAt of the pool of that moment and checks that the base cycle is never '
             'held back; non-trivial = distinct (kind, ending, launch-count class, limit binds?, base point moves?) class per '
-            'distinct case')
+            'distinct case. Direct cases: integer and datetime cycling, 1-3 recurrences (P1..P6, offsets, R1, PT3H..P2D, T00...), '
+            'limits P0-P4 and durations PT0H..P2D, stop point none / final / inside, 2-7 blocks of (new pool with tasks on several '
+            'cycles, some with future offsets P1-P3 / PT3H-P1D, some already released; set_max_future_offset; 1-2 compute_runahead, '
+            '15% forced; release_runahead_tasks), base point moving forward, staying, or (12%) backward')
     gen_opts = {'max_span': 5, 'p_stop': 0.3}
-    n_direct_quick = 400
+    def corpus(self):
+        # regression inputs of the component level: datetime duration limit with future offsets and a stop point;
+        # limit at the stop point while the base point moves forward (early return must stay correct)
+        return [
+            {'direct': {'mode': 'datetime', 'icp': '20000101T0000Z', 'fcp': '20000105T0000Z', 'recs': ['P1D', 'PT6H'],
+                        'limit': 'PT12H', 'stop': '20000103T0000Z', 'ops': [
+                            {'op': 'pool', 'tasks': [['20000101T0600Z', None, True], ['20000101T1200Z', 'PT6H', True],
+                                                     ['20000102T0000Z', None, True], ['20000102T0600Z', None, True]]},
+                            {'op': 'offset'}, {'op': 'compute', 'force': False}, {'op': 'release'},
+                            {'op': 'pool', 'tasks': [['20000102T0000Z', None, False], ['20000102T1800Z', None, True],
+                                                     ['20000103T0000Z', None, True], ['20000103T0600Z', None, True]]},
+                            {'op': 'offset'}, {'op': 'compute', 'force': False}, {'op': 'release'}]}},
+            {'direct': {'mode': 'integer', 'icp': '1', 'fcp': '10', 'recs': ['P1', 'P3'], 'limit': 'P2', 'stop': '5', 'ops': [
+                {'op': 'pool', 'tasks': [['3', None, True], ['5', None, True], ['6', None, True]]},
+                {'op': 'offset'}, {'op': 'compute', 'force': False}, {'op': 'release'},
+                {'op': 'pool', 'tasks': [['4', None, True], ['5', None, True], ['6', None, True]]},
+                {'op': 'offset'}, {'op': 'compute', 'force': False}, {'op': 'release'}]}},
+        ]
+
+    n_direct_quick = 300
     n_direct_thorough = 6000
 
     # -- scheduler runs + direct runs of compute_runahead on a pool stub ----------------------
@@ -77,16 +118,29 @@ class C04(SchedProp):
             yield direct.gen_direct(base + k, random.Random)
 
     def impl_batch(self, inputs):
+        # scheduler runs in worker processes (a thread waits for them) while the direct cases run in this process
+        import threading
         out = [None] * len(inputs)
         sched = [(k, i) for k, i in enumerate(inputs) if 'direct' not in i]
-        for (k, _i), r in zip(sched, super().impl_batch([i for _k, i in sched])):
+        box = {}
+
+        def run_sched():
+            try:
+                box['res'] = SchedProp.impl_batch(self, [i for _k, i in sched])
+            except BaseException as exc:      # re-raised in the main thread (Infra = exit 2)
+                box['exc'] = exc
+        th = threading.Thread(target=run_sched)
+        th.start()
+        try:
+            for k, i in enumerate(inputs):
+                if 'direct' in i:
+                    out[k] = direct.run_direct(direct.snap_to_sequences(i))
+        finally:
+            th.join()
+        if 'exc' in box:
+            raise box['exc']
+        for (k, _i), r in zip(sched, box['res']):
             out[k] = r
-        for k, i in enumerate(inputs):
-            if 'direct' in i:
-                exact = direct.snap_to_sequences(i)
-                r = direct.run_direct(exact)
-                r['exact'] = exact
-                out[k] = r
         return out
 
     def skip_case(self, inp, raw):
